@@ -4,7 +4,8 @@ from .common import hx, rbytes, budget
 HARNESS = "c15"
 CONST_GROUPS = ["message", "storage"]
 TIMEOUT = 3000
-RULE = ("sessions on one directory: reset <retain> / run <how> <k> <d> <workers> <fill> <messages…> / check <page limit> <how> / sleep. "
+RULE = ("incarnations <p> <n>: p successive processes create their first n message ids of one channel within one second, no id may repeat (ids are the store keys); "
+        "sessions on one directory: reset <retain> / run <how> <k> <d> <workers> <fill> <messages…> / check <page limit> <how> / sleep. "
         "run re-executes the harness as a child process that opens storage.SSD on the directory, stores the messages (1 or 4 "
         "goroutines) and writes an acknowledgement to a pipe after every Store that returned; how = clean (Close, exit), kill (SIGKILL "
         "once k acknowledgements were read + d µs: lands inside later Store calls, or while idle), killopen (SIGKILL k µs after "
@@ -128,7 +129,7 @@ def session(rng, ops, cycles, size, fill=None, soon=False, retain=None):
 
 
 def gen(rng, tier):
-    ops = []
+    ops = ["reset 0", "incarnations 3 %d" % rng.choice([4, 8])]
     if tier != "thorough":
         session(rng, ops, 4, 160)
         session(rng, ops, 3, 80, soon=True)
